@@ -93,7 +93,9 @@ def symexpr(rng, params):
                         # number bases in every printed form: small/large floats (scientific notation), rationals, pi
                         -(sym.Float(0.00002) ** a), -(sym.Float(1e20) ** a) * 3, -(sym.Float(2.5) ** a) * b, -(sym.Rational(1, 3) ** a),
                         -(sym.pi ** a), -(sym.Float(1e-7) ** (a + b)), b - sym.Float(3e-9) ** a, -(sym.Float(0.5) ** a) / b,
-                        sym.Float(1e-10) * a - sym.Float(1e22) * b ** 2, -sym.Float(1.5e-8) * a ** 2])
+                        sym.Float(1e-10) * a - sym.Float(1e22) * b ** 2, -sym.Float(1.5e-8) * a ** 2,
+                        # bases that print with nested parentheses
+                        -((a + b) * a) ** b, -((a + 1) ** 2) ** b, -(((a + 1) * a) ** sym.Float(0.5)), -((2 * (a + b)) ** a) * b, -((b * (a + 1)) ** 3) / 7])
     if not getattr(e, "free_symbols", None):
         e = syms[0] * 2 + 1          # constant sympy numbers are not "expressions in named parameters"
     for s in e.free_symbols:
